@@ -31,7 +31,11 @@ func GenLatch(seed, run uint64, tier string) *plan.Plan {
 	default:
 		c.Traps = genTrapSet(r)
 	}
-	p.Contexts = []plan.Ctx{c}
+	// a second context: same numbers, another trap set (ErrDecimal.Ctx is an
+	// exported field; a caller may tighten or relax the traps mid-sequence)
+	c2 := c
+	c2.Traps = genTrapSet(r)
+	p.Contexts = []plan.Ctx{c, c2}
 	nshared := r.Range(3, 8)
 	for i := 0; i < nshared; i++ {
 		p.Shared = append(p.Shared, genTrapOperand(r))
@@ -50,6 +54,15 @@ func GenLatch(seed, run uint64, tier string) *plan.Plan {
 				return fmt.Sprintf("s%d", r.Intn(nshared))
 			}
 			return fmt.Sprintf("r%d", r.Intn(nregs))
+		}
+		if r.Chance(1, 14) {
+			// the caller touches the exported fields of the ErrDecimal
+			if r.Bool() {
+				tk.Steps = append(tk.Steps, plan.Step{Op: "EDPreset", N: int64(genTrapSet(r))})
+			} else {
+				tk.Steps = append(tk.Steps, plan.Step{Op: "EDSwapCtx"})
+			}
+			continue
 		}
 		for {
 			switch k := r.Intn(20); {
@@ -89,7 +102,12 @@ type latchModel struct {
 func RunLatch(p *plan.Plan) *plan.Result {
 	res := &plan.Result{Run: p.Run, Stats: map[string]uint64{}}
 	st := res.Stats
-	c := BuildCtx(p.Contexts[0])
+	ctxs := []*apd.Context{BuildCtx(p.Contexts[0])}
+	if len(p.Contexts) > 1 {
+		ctxs = append(ctxs, BuildCtx(p.Contexts[1]))
+	}
+	cur := 0
+	c := ctxs[0]
 	tk := &p.Tasks[0]
 	mk := func() Env {
 		e := Env{Ctxs: []*apd.Context{c}}
@@ -123,9 +141,38 @@ func RunLatch(p *plan.Plan) *plan.Result {
 	after := 0
 	for si := range tk.Steps {
 		step := &tk.Steps[si]
+		switch step.Op {
+		case "EDPreset":
+			// flags set by the caller count like accumulated ones; Err() is
+			// deliberately not called here (it would cache the error)
+			real.ED.Flags |= apd.Condition(uint32(step.N) & 0xfff)
+			m.flags |= apd.Condition(uint32(step.N) & 0xfff)
+			st["fault_latch_preset_flags"]++
+			continue
+		case "EDSwapCtx":
+			if len(ctxs) > 1 {
+				cur ^= 1
+				c = ctxs[cur]
+				real.ED.Ctx = c
+				real.Ctxs[0] = c
+				mirror.Ctxs[0] = c
+				st["fault_latch_swap_context"]++
+			}
+			continue
+		}
 		def := Ops[step.Op]
 		if def == nil || def.CtxName == "" {
 			continue
+		}
+		// the latch trips as soon as the accumulated flags meet the traps in force
+		if !m.has {
+			if _, err := m.flags.GoError(c.Traps); err != nil {
+				m.err, m.has = err.Error(), true
+				if tripped < 0 {
+					tripped = si
+					st["fault_latch_tripped"]++
+				}
+			}
 		}
 		// model step
 		mirror.Resolve(step, &b)
